@@ -457,7 +457,9 @@ func curateFailedPoints(allIds []uuid.UUID, successIds []uuid.UUID, isCompleteRe
 	// what failed, we can just say more concisely what succeeded to hopefully
 	// reduce traffic size.
 	successSize := len(successIds)
-	failedPoints := make([]FailedPoint, 0, len(allIds)-successSize)
+	// There may be more successes than requested ids if an id is stored in
+	// several shards, the capacity must not become negative
+	failedPoints := make([]FailedPoint, 0, max(0, len(allIds)-successSize))
 	for _, id := range allIds {
 		_, found := slices.BinarySearchFunc(successIds, id, func(a, b uuid.UUID) int {
 			return bytes.Compare(a[:], b[:])
